@@ -195,3 +195,29 @@ Example C20_ex_ill_typed_int32_reaches_slice :
                  (Some [("a", VDoc [("$slice", VArr [VInt32 1; VInt32 9223372036854775807])])]) 0 0 ])
   = [RId (VInt32 1); RErr EPanic].
 Proof. exact ill_typed_int32_reaches_slice. Qed.
+
+(* ---------------- the catalog-level driver calls (Model/DriverExt.v) ----------------
+   CreateCollection, ListCollections, ListDatabases (any filter) and
+   CreateMany answer with a result or an error, for every state, and after
+   every history of extended calls. *)
+From Lungo.Model Require Import DriverExt.
+From Lungo.Proofs Require Import DriverExtProofs.
+
+Theorem C20_ext_driver_generic : forall matchf applyf extractf projectf now,
+  (forall d q, safe (matchf d q)) ->
+  (forall d q u up afs now, safe (applyf d q u up afs now)) ->
+  (forall q, safe (extractf q)) ->
+  forall okp : doc -> Prop, (forall d p, okp p -> safe (projectf d p)) ->
+  forall ds x, xcall_ok okp x -> xreply_ok (snd (xstep matchf applyf extractf projectf now ds x)).
+Proof. exact xstep_reply_ok. Qed.
+Print Assumptions C20_ext_driver_generic.
+
+Theorem C20_ext_histories_answered : forall matchf applyf extractf projectf now,
+  (forall d q, safe (matchf d q)) ->
+  (forall d q u up afs now, safe (applyf d q u up afs now)) ->
+  (forall q, safe (extractf q)) ->
+  forall okp : doc -> Prop, (forall d p, okp p -> safe (projectf d p)) ->
+  forall xs ds, Forall (xcall_ok okp) xs ->
+                Forall xreply_ok (snd (xrun matchf applyf extractf projectf now ds xs)).
+Proof. exact xrun_replies_ok. Qed.
+Print Assumptions C20_ext_histories_answered.
